@@ -15,6 +15,7 @@ import (
 type T0 struct{ K int }
 type T1 struct{ K int }
 type T2 struct{ K int }
+
 // T3 is only ever used through *T3. Aux is scratch space that function bodies
 // update (under the program's own lock) in the object they were handed: a
 // shared mutable value, as real programs pass registries and loggers around.
